@@ -660,13 +660,13 @@ Qed.
 (* ------------------------------------------------------------------ matches, property, index, len *)
 Lemma correct_matches a re x y : correct x -> correct y -> correct (EMatches a re x y).
 Proof.
-  intros IHx IHy ctx scs CM. destruct re as [pat|]; cbn [compile].
+  intros IHx IHy ctx scs CM. cbn [compile]. destruct (re_const re y) as [pat|] eqn:Erc.
   - eapply spec_ext; [|eapply (spec_seq _ _ _ [] []); [apply IHx; exact CM|intros va]].
-    + intros r; cbn [eval loc_of ann_of]; reflexivity.
+    + intros r; cbn [eval loc_of ann_of]; rewrite Erc; reflexivity.
     + cbn [at_ map]. one_step. destruct (as_str va) as [sx|]; cbn; auto. destruct (re_match fe pat sx); reflexivity.
   - eapply spec_ext; [|eapply (spec_seq _ _ _ [] []); [apply IHx; exact CM|intros va;
       eapply (spec_seq _ _ _ [] [va]); [apply IHy; exact CM|intros vb]]].
-    + intros r; cbn [eval loc_of ann_of]; reflexivity.
+    + intros r; cbn [eval loc_of ann_of]; rewrite Erc; reflexivity.
     + cbn [at_ map]. eapply spec_ext; [|eapply (spec_bin IMatches); [reflexivity|bin_step]].
       intros r; cbn. destruct (as_str vb) as [sp|]; cbn; auto. destruct (as_str va) as [sx|]; cbn; auto.
       destruct (re_match fe sp sx); reflexivity.
